@@ -332,7 +332,8 @@ def make_case(ctx, g):
             if e1 != exp or e2 != exp:
                 fails.append(Failure("oracle", None, "bundles: x==y %s, y==x %s, content equal %s" % (e1, e2, exp),
                                      {"ops": list(w.ops), "expect_eq": exp}))
-    if g.chance(0.3):
+    if g.chance(0.3) or edit == "rename-prefix":
+        # (always after the records have been re-added under other prefixes: the copy's spelling must not reach the original)
         # "serialisation round trip" is on the property's list of content-preserving transformations: the document read back
         # from its own PROV-JSON text equals the document, from both sides
         f = roundtrip_equal(ctx, w.conts[d], {"ops": list(w.ops), "roundtrip": "json", "doc": d})
@@ -346,7 +347,7 @@ def make_case(ctx, g):
 
 
 def roundtrip_equal(ctx, doc, case):
-    from .c01 import unresolvable
+    from .c01 import unresolvable, undeclared_prefix_names
     import logging
     import warnings
     logging.disable(logging.CRITICAL)
@@ -355,10 +356,14 @@ def roundtrip_equal(ctx, doc, case):
             warnings.simplefilter("ignore")
             text = doc.serialize(format="json")
             back = ProvDocument.deserialize(content=text, format="json")
-    except Exception:  # noqa  (judged by C01)
+    except Exception as e:  # noqa
         if ctx is not None:
             ctx.count("roundtrip-not-applicable")
-        return None
+        if unresolvable(doc) and not undeclared_prefix_names(doc):
+            return None         # known finding C01-1 (root cause C03-1), judged by C01
+        # every name of the document resolves where it is printed, and still its own PROV-JSON text cannot be read back: the
+        # document is not what its construction history says (e.g. a value object re-spelled through a copy)
+        return Failure("oracle", None, "[serialisation round trip] the document's own PROV-JSON text cannot be read back: %r" % (e,), case)
     finally:
         logging.disable(logging.NOTSET)
     if ctx is not None:
@@ -366,7 +371,7 @@ def roundtrip_equal(ctx, doc, case):
     e1, e2 = (doc == back), (back == doc)
     if e1 and e2 and not (doc != back):
         return None
-    if unresolvable(doc):
+    if unresolvable(doc) and not undeclared_prefix_names(doc):
         # known finding C01-1 (root cause C03-1): a name that does not read back to the same URI in the bundle where it is printed
         if ctx is not None:
             ctx.count("roundtrip-known-unresolvable-name")
